@@ -580,6 +580,7 @@ def opCliTrace : Rd String := do
   let jobs ← nat
   let keep ← bool
   let failFast ← bool
+  let mgmt ← str
   let files ← listOf (do
     let path ← str
     let db ← str
@@ -589,6 +590,7 @@ def opCliTrace : Rd String := do
   let tags ← listOf readTag
   let cfg : DCfg := { jobs, keep, failFast, files }
   if tags.any (·.isNone) then pure "reject no-status-line"
+  else if !dwfB cfg mgmt then pure "reject configuration-not-well-formed"
   else
     match traceCheck cfg labels evs (tags.filterMap id) with
     | .ok => pure "accept"
